@@ -39,10 +39,7 @@ func runC08E2E(t *rapid.T) {
 	if err := srv.start(); err != nil {
 		t.Skip("inconclusive: standalone does not start: " + err.Error())
 	}
-	defer func() {
-		time.Sleep(30 * time.Millisecond)
-		srv.stop()
-	}()
+	defer srv.shutdown()
 	maxReq := rapid.IntRange(1, 6).Draw(t, "maxRequestsPerBatch")
 	linger := time.Duration(rapid.IntRange(0, 2).Draw(t, "lingerMs")) * time.Millisecond
 	cl, err := oxia.NewAsyncClient(srv.addr(), oxia.WithRequestTimeout(10*time.Second), oxia.WithMaxRequestsPerBatch(maxReq), oxia.WithBatchLinger(linger))
